@@ -192,7 +192,7 @@ class SpecFun(object):
 # ============================================================ state
 
 class State(object):
-    __slots__ = ('env', 'heap', 'pc', 'trace', 'nextref', 'flags', 'obls', 'frames', 'notes')
+    __slots__ = ('env', 'heap', 'pc', 'trace', 'nextref', 'flags', 'obls', 'frames', 'notes', 'ghost')
 
     def __init__(self):
         self.env = {}
@@ -204,6 +204,7 @@ class State(object):
         self.obls = []       # obligations raised along this path: (name, [assumptions], goal, meta)
         self.frames = []
         self.notes = []
+        self.ghost = {}      # path-global ghost values (e.g. 'now': what the first time.time() returns)
 
     def fork(self):
         s = State()
@@ -216,6 +217,7 @@ class State(object):
         s.obls = list(self.obls)
         s.frames = list(self.frames)
         s.notes = list(self.notes)
+        s.ghost = dict(self.ghost)
         return s
 
     def alloc(self, hobj):
@@ -436,6 +438,8 @@ class SpecEval(object):
             return v
         if n.id in ('True', 'False'):
             return VBool(n.id == 'True')
+        if n.id in e.st.ghost:
+            return e.st.ghost[n.id]
         raise SpecError('spec: unknown name %s' % n.id)
 
     def ev_Attribute(self, n, e):
@@ -604,7 +608,7 @@ class SpecEval(object):
             if f == 'contains':
                 hay = self.ev(n.args[0], e)
                 nd = self.ev(n.args[1], e)
-                return VBool(z3.Contains(hay.t, nd.t if isinstance(nd, VStr) else z3.Unit(term_of(nd))))
+                return VBool(contains(hay, nd, e.st))
             if f in self.reg.specfuns:
                 sf = self.reg.specfuns[f]
                 args = [self.ev(a, e) for a in n.args]
@@ -888,6 +892,8 @@ def contains(container, item, st):
         return dict_has(container, item)
     if isinstance(container, VRef) and isinstance(st.heap[container.ref], HDict):
         return dict_has(st.heap[container.ref], item)
+    if isinstance(container, VRef) and isinstance(st.heap[container.ref], HList) and st.heap[container.ref].seq is None:
+        return z3.BoolVal(False)
     if isinstance(container, (VSeq, VRef)):
         s, _ = as_seq(container, st)
         return z3.Contains(s, z3.Unit(term_of(item)))
@@ -895,10 +901,14 @@ def contains(container, item, st):
 
 
 def dict_has(h, k):
+    if h.ktype is None:
+        return z3.BoolVal(False)      # untyped {} literal: still empty
     return z3.Contains(h.keys, z3.Unit(term_of(k)))
 
 
 def dict_get(h, k):
+    if h.ktype is None:
+        return VInt(0)
     kt = term_of(k)
     if isinstance(h.vtype, tuple) and h.vtype[0] == 'tuple':
         return VTuple([wrap(z3.Select(m, kt), t) for m, t in zip(h.maps, h.vtype[1:])])
